@@ -40,6 +40,9 @@ pub assume_specification<P: Pattern>[ str::ends_with::<P> ](s: &str, pat: P) -> 
 pub assume_specification<P: Pattern>[ str::strip_prefix::<P> ](s: &str, pat: P) -> (r: Option<&str>)
     ensures is_prefix(pat_view(pat), s@) ==> r.is_some() && r.unwrap()@ == s@.subrange(pat_view(pat).len() as int, s@.len() as int),
             !is_prefix(pat_view(pat), s@) ==> r.is_none();
+// `&str == &str` (the blanket impl for references is specified by vstd; this is the comparison of the contents)
+pub assume_specification[ <str as PartialEq<str>>::eq ](a: &str, b: &str) -> (r: bool)
+    ensures r == (a@ == b@);
 // String::len: "Returns the length of this String, in bytes."
 pub assume_specification[ String::len ](s: &String) -> (r: usize)
     ensures r == encode_utf8(s@).len();
